@@ -318,23 +318,23 @@ CHECKS["C03"] = dict(
 CHECKS["C27"] = dict(
     src="C27.cpp", level="model_checking",
     entries=[
-        dict(name="harness_c27_binary", quick={"B": 2}, thorough={"B": 3, "_wall": 1700}),
+        dict(name="harness_c27_binary", quick={"B": 1}, thorough={"B": 3, "_wall": 1700}),
         dict(name="harness_c27_ternary", quick={"B": 1}, thorough={"B": 2, "_wall": 1700}, thorough_only=True),
-        dict(name="harness_c27_topology", quick={"B": 2}, thorough={"B": 3}),
+        dict(name="harness_c27_topology", quick={"B": 1}, thorough={"B": 3}),
     ],
     anchors=["SymEngine::Interval::set_union", "SymEngine::Interval::set_intersection", "SymEngine::set_union", "SymEngine::set_intersection", "SymEngine::set_complement", "SymEngine::Interval::contains", "SymEngine::FiniteSet::contains", "SymEngine::closure", "SymEngine::interior", "SymEngine::boundary"],
-    bounds="operands: intervals with symbolic integer end points |e|<=2 (3) and all open/closed flags, half-lines to -oo/+oo, finite sets of two symbolic integers, empty set, reals, rationals, integers, universal set; all ordered pairs (triples in the thorough tier) under union, intersection, complement (free functions and member functions); the test point is a symbolic half-integer covering end points and gaps; membership in the result by an independent structural walker and by contains(); closure/interior/boundary of a union of two intervals",
+    bounds="operands: intervals with symbolic integer end points |e|<=1 (3) and all open/closed flags, half-lines to -oo/+oo, finite sets of two symbolic integers, empty set, reals, rationals, integers, universal set; all ordered pairs (triples in the thorough tier) under union, intersection, complement (free functions and member functions); the test point is a symbolic half-integer covering end points and gaps; membership in the result by an independent structural walker and by contains(); closure/interior/boundary of a union of two intervals",
     outside=["rational end points with other denominators", "ImageSet, ConditionSet", "sup/inf"],
 )
 
 CHECKS["C28"] = dict(
     src="C28.cpp", level="model_checking",
     entries=[
-        dict(name="harness_c28_connectives", quick={"B": 1}, thorough={"B": 2, "_wall": 1700}),
-        dict(name="harness_c28_piecewise", quick={"B": 2}, thorough={"B": 3}),
+        dict(name="harness_c28_connectives", quick={"B": 1, "bkinds": 5, "ckinds": 0, "nonneg": 1}, thorough={"B": 1, "_wall": 2400}),
+        dict(name="harness_c28_piecewise", quick={"B": 1, "bkinds": 5}, thorough={"B": 2, "_wall": 2400}),
     ],
     anchors=["SymEngine::and_or", "SymEngine::logical_not", "SymEngine::logical_xor", "SymEngine::piecewise", "SymEngine::Contains"],
-    bounds="formulas over three atoms from {x<c, x<=c, Eq, Ne, x>c, Contains(x, Interval), Contains(x, FiniteSet)} with symbolic integer constants |c|<=1 (2): And, Or, Not, Xor, Nand, Nor, Xnor of 2-3 atoms and three nested shapes; truth compared at a symbolic half-integer value of x; piecewise with two symbolic conditions",
+    bounds="formulas over three atoms from {x<c, x<=c, Eq, Ne, x>c, Contains(x, Interval), Contains(x, FiniteSet)} with symbolic integer constants |c|<=1 (quick tier: constants in {0,1}, test point in {-1/2..3/2}; the second atom is a relational, the third is x<0): And, Or, Not, Xor, Nand, Nor, Xnor of 2-3 atoms and three nested shapes; truth compared at a symbolic half-integer value of x; piecewise with two symbolic conditions",
     outside=["opaque boolean symbols as atoms", "atoms on two different symbols"],
 )
 
